@@ -791,7 +791,10 @@ class CallMixin(object):
                     raise OutOfSubset("isinstance(%r, %s)" % (v, n))
             if isinstance(v, OptionalVal):
                 raise OutOfSubset("isinstance on optional value")
-            res = res or r
+            if isinstance(res, bool) and isinstance(r, bool):
+                res = res or r
+            else:
+                res = ops.disj([res, r])
         return res
 
     def inst_isinstance(self, inst, cname):
